@@ -48,5 +48,5 @@ Check(ev) == CASE ev.e = "q" -> Failing(QClauses(ev))
 
 TInit == l = 1
 TNext == /\ l <= Len(Log) /\ l' = l + 1
-         /\ LET f == Check(Ev) IN IF f = {} THEN TRUE ELSE PrintT(<<"REJECT", l, f>>)
+         /\ LET f == Check(Ev) IN IF f = {} THEN TRUE ELSE PrintT("REJECT " \o ToString(l) \o " " \o ToString(f))
 =============================================================================
